@@ -48,7 +48,17 @@ def showOut (w : Bytes) : WP.Out → String
 def showOutcome : WP.Outcome → String
   | .ok => "ok" | .formError => "FormError" | .assertion => "AssertionError"
 
+def parseKind : String → Option (Option ExcKind)
+  | "none" => some none | "F" => some (some .form) | "S" => some (some .syntax) | "O" => some (some .other) | _ => none
+
+def showKind : Option ExcKind → String
+  | none => "none" | some .form => "F" | some .syntax => "S" | some .other => "O"
+
 def handleC04 : List String → Option String
+  | ["c04.wrap", f, r] => do
+    let f ← (if f = "F" then some Family.form else if f = "S" then some Family.syntax else none)
+    let r ← parseKind r
+    some (showKind (wrapExit f r))
   | "c04.parser" :: w :: cur :: prog => do
     let w ← ofHex w
     let cur ← cur.toNat?
